@@ -240,6 +240,7 @@ Program gen_program(uint64_t seed, const GenParams &gp, const std::string &profi
                 if (gp.fill && rng.chance(0.5)) { Op q; q.kind = OP_DEF_VAR_FILL; q.file = fi; q.var = vi; q.a[0] = rng.chance(0.3); q.a[1] = rng.chance(0.5); q.a[2] = (long long)rng.range(1, 100000); emit(q); }
                 if (gp.atts && rng.chance(0.4)) { Op q; q.kind = OP_PUT_ATT; q.file = fi; q.var = vi; q.name = gen_name(rng, "a", natt_ctr++, gp.utf8_names); q.att = gen_att(rng, f.format); emit(q); }
             }
+            if (gp.fill && rng.chance(0.25)) { Op o; o.kind = OP_SET_FILL; o.file = fi; o.a[0] = rng.chance(0.5); emit(o); }   // after the per-variable settings: overrides every variable's mode but keeps their _FillValue attributes
             if (gp.meta_heavy) {
                 int k = (int)rng.range(0, 4);
                 for (int i = 0; i < k; i++) {
@@ -289,7 +290,17 @@ Program gen_program(uint64_t seed, const GenParams &gp, const std::string &profi
             else if (x < 0.80) { o.kind = OP_INQ; emit(o); }
             else if (x < 0.90 && gp.nonblocking) {
                 double y = (rng.next() >> 11) * (1.0 / 9007199254740992.0);
-                if (y < 0.1 && !f.ranks[0].abuf) { o.kind = OP_ATTACH; o.a[0] = rng.chance(0.3) ? rng.range(8, 200) : rng.range(200, 20000); emit(o); }
+                if (y < 0.1 && !f.ranks[0].abuf) {
+                    o.kind = OP_ATTACH; o.a[0] = rng.chance(0.3) ? rng.range(8, 200) : rng.range(200, 20000);
+                    if (rng.chance(0.35)) {   // tight fit: the buffer is sized around what the buffered put posted next needs (in external and in memory representation), so acceptance / refusal is decided at the boundary
+                        Op b; b.file = fi; b.var = o.var; b.kind = OP_BPUT; gen_partitioned(rng, v, f.numrecs, np, false, gp, b.acc); for (auto &a : b.acc) if (a.form == F_VARD) { a.form = F_VARS; a.flexible = false; }
+                        long long ne = 0, isz = 1; for (auto &a : b.acc) if (a.active) { ne = std::max<long long>(acc_nelems(a), 0); isz = mt_size(a.memtype); if (rng.chance(0.5)) break; }
+                        long long nx = ne * nc_type_size(v.type), nm2 = ne * isz; long long k = 1 + (long long)rng.below(2);
+                        static const int ds[] = {-1, 0, 0, 1}; long long cand[] = {k * nx + ds[rng.below(4)], k * nm2 + ds[rng.below(4)], k * (nx + nm2) / 2, k * nx + (k - 1)};
+                        long long sz = cand[rng.below(4)]; if (sz > 0 && ne > 0) { o.a[0] = sz; if (emit(o)) { if (k == 2 && rng.chance(0.5)) { Op b0 = b; if (emit(b0)) pending++; } if (emit(b)) pending++; } continue; }
+                    }
+                    emit(o);
+                }
                 else if (y < 0.45) { o.kind = (f.ranks[0].abuf && rng.chance(0.5)) ? OP_BPUT : OP_IPUT; gen_partitioned(rng, v, f.numrecs, np, false, gp, o.acc); for (auto &a : o.acc) if (a.form == F_VARD) { a.form = F_VARS; a.flexible = false; } if (emit(o)) pending++; }
                 else if (y < 0.65) { o.kind = OP_IGET; for (int r = 0; r < np; r++) { Access a = gen_region_access(rng, v, f.ranks[r].numrecs, true, false, gp); if (a.form == F_VARD) { a.form = F_VARS; a.flexible = false; } if (rng.chance(0.2)) a.active = false; o.acc.push_back(a); } if (emit(o)) pending++; }
                 else if (y < 0.92) {
@@ -300,13 +311,14 @@ Program gen_program(uint64_t seed, const GenParams &gp, const std::string &profi
                 } else {
                     o.kind = OP_CANCEL; o.waits.resize(np); bool stack_case = false;
                     for (int r = 0; r < np; r++) {
-                        WaitSpec &w = o.waits[r]; w.mode = rng.chance(0.3) ? 1 : 0; int n = (int)rng.range(0, 3); for (int i = 0; i < n; i++) w.slots.push_back((int)rng.below(12));
+                        WaitSpec &w = o.waits[r]; w.mode = rng.chance(0.3) ? 1 : rng.chance(0.25) ? 2 + (int)rng.below(2) : 0; int n = (int)rng.range(0, 3);   // incl. NC_GET_REQ_ALL / NC_PUT_REQ_ALL for (int i = 0; i < n; i++) w.slots.push_back((int)rng.below(12));
                         // attached-buffer stack scenario: cancel (by id) a buffered put that is not the last one posted, then post another one while the later one is still pending
                         std::vector<int> bp; for (int s2 = 0; s2 < (int)f.ranks[r].reqs.size(); s2++) if (f.ranks[r].reqs[s2].live && f.ranks[r].reqs[s2].kind == K_BPUT) bp.push_back(s2);
                         if (bp.size() >= 2 && rng.chance(0.5)) { w.mode = 0; w.slots.assign(1, bp[rng.below(bp.size() - 1)]); stack_case = true; }
                     }
+                    bool getall = false; for (auto &w : o.waits) if (w.mode == 2) getall = true;   // cancelling only the reads must leave the attached buffer's accounting alone: follow up with another buffered put
                     bool ok = emit(o);
-                    if (ok && stack_case && f.ranks[0].abuf && rng.chance(0.7)) { Op b2; b2.file = fi; b2.var = (int)rng.below(f.vars.size()); b2.kind = OP_BPUT; gen_partitioned(rng, f.vars[b2.var], f.numrecs, np, false, gp, b2.acc); for (auto &a : b2.acc) if (a.form == F_VARD) { a.form = F_VARS; a.flexible = false; } if (emit(b2)) pending++; }
+                    if (ok && (stack_case || getall) && f.ranks[0].abuf && rng.chance(0.7)) { Op b2; b2.file = fi; b2.var = (int)rng.below(f.vars.size()); b2.kind = OP_BPUT; gen_partitioned(rng, f.vars[b2.var], f.numrecs, np, false, gp, b2.acc); for (auto &a : b2.acc) if (a.form == F_VARD) { a.form = F_VARS; a.flexible = false; } if (emit(b2)) pending++; }
                 }
             } else if (x < 0.95 && gp.redef) {
                 o.kind = OP_REDEF;
